@@ -78,3 +78,17 @@ Definition c_won (p : cpc) : bool :=
 Definition count {A} (f : A -> bool) (l : list A) : nat := length (filter f l).
 
 Definition closed_bit (s : cst) : bool := Nat.odd (ac s).
+
+(* A Close call that is on the close_notify path: it won the CAS with x = 0 and goes on to closeNotify(), which takes
+   c.out's mutex (CWon 0), or has done so (CDoneNotify).  The path with x <> 0 returns c.conn.Close() at once and never
+   touches c.out - the lock a Write in flight holds for its whole duration, possibly parked in the transport. *)
+Definition on_notify_path (p : cpc) : bool := match p with CWon 0 | CDoneNotify => true | _ => false end.
+
+(* What Close would do if the shortcut were not taken on an established connection (e.g. "x != 0 &&
+   !c.handshakeComplete()"): the winner always goes to closeNotify.  Used only for the example showing that the
+   shortcut condition matters. *)
+Definition cstep_always_notify (s : cst) (j : nat) : cst :=
+  match nth_error (cs s) j with
+  | Some (CWon _) => mkC (ac s) (ws s) (upd j CDoneNotify (cs s)) (entered_closed s)
+  | _ => cstep s j
+  end.
